@@ -280,7 +280,9 @@ Definition cstep (st : cstate) (o : cop) : option (cstate * res * cevs) :=
           else
             let '(l1, ev, qa, ia) := dispatch_all cu lim (h, b) (cs_ntfns s0) in
             Some (mkC cu rd lim nid (Some (mkCS RComplete (Some (h, b)) l1))
-                      (if ia then add h ini else ini) (padd_all qa q) (Some h),
+                      (* af6371e: the height is tracked even with no client *)
+                      (if (cu <? h + lim) || ia then add h ini else ini)
+                      (padd_all qa q) (Some h),
                   ROk None, ev)
         end
       end
@@ -488,7 +490,8 @@ Definition sstep (st : sstate) (o : sop) : option (sstate * res * sevs) :=
           else
             let '(l1, ev, ia) := sdispatch_all cu lim (h, tx) (ss_ntfns s0) in
             Some (mkS cu lim nid (Some (mkSS RComplete (Some (h, tx)) l1))
-                      (if ia then add h hs else hs) (Some h),
+                      (* af6371e: the height is tracked even with no client *)
+                      (if (cu <? h + lim) || ia then add h hs else hs) (Some h),
                   ROk None, ev)
         end
       end
